@@ -446,6 +446,8 @@ fn run_batch(case: &Value, p: &Pool, cap_mb: usize) -> Value {
 fn main() {
     // address-space limit per process: an allocation bomb made of many small allocations fails
     // (-> "alloc_at") instead of taking the machine down
+    // no backtraces: symbolising one (alloc-error message, panic message) costs seconds per event
+    std::env::set_var("RUST_BACKTRACE", "0");
     let lim = std::env::var("C14_AS_LIMIT_MB").ok().and_then(|s| s.parse::<u64>().ok()).unwrap_or(3072);
     unsafe {
         let r = Rlimit { cur: lim << 20, max: lim << 20 };
